@@ -139,6 +139,7 @@ Shift(op, x, y) ==
      ELSE IF y.c # NoC /\ y.c.q.n < 0 THEN Err("negcount")
      ELSE IF x.c = NoC THEN (IF IsInteger(x.ty) THEN Ok(x.ty, NoC) ELSE Err("shiftedoperand"))
      ELSE IF ~(x.c.k = "num" /\ IsNumeric(x.ty) /\ IsInt(x.c.q) /\ (IsUntyped(x.ty) \/ IsInteger(x.ty))) THEN Err("shiftedoperand")
+     ELSE IF y.c = NoC /\ ~IsUntyped(x.ty) THEN Ok(x.ty, NoC)                          \* typed constant << variable: a non-constant value of the constant's type
      ELSE IF y.c = NoC THEN [ok |-> TRUE, ty |-> "skip", c |-> [k |-> "skip"]]       \* untyped const << variable: context dependent, out of trial
      ELSE LET rt == IF IsInteger(x.ty) THEN x.ty ELSE "utint"
               s == y.c.q.n
